@@ -218,12 +218,17 @@ def run(g: RCFG, env: Env) -> Result:
                 stack.append(own_field(imm[0]))
             elif op == "gtxn":
                 check_field(imm[1])
-                abs_read = True
-                stack.append(member_field(parse_int_tok(imm[0]), imm[1]))
+                v = member_field(parse_int_tok(imm[0]), imm[1])
+                if parse_int_tok(imm[0]) != env.index:
+                    abs_read = True  # reads *another* transaction by absolute index
+                stack.append(v)
             elif op == "gtxns":
                 check_field(imm[0])
                 i = pop_int()
-                stack.append(member_field(i, imm[0]))
+                v = member_field(i, imm[0])
+                if len(trace) >= 2 and seq[trace[-2]].op in ("int", "pushint", "intc", "intc_0", "intc_1", "intc_2", "intc_3") and i != env.index:
+                    abs_read = True
+                stack.append(v)
             elif op == "global":
                 f = imm[0]
                 if f == "GroupSize":
